@@ -5,6 +5,7 @@ observed (operation, reader result) sequence is compared with Model/Monitor.v.""
 import builtins
 import os
 import random
+import shutil
 import tempfile
 import warnings
 from pathlib import Path
@@ -298,7 +299,7 @@ def ops_with_vals(ops, ev, gib):
 
 
 # ------------------------------------------------------------------ sub-step interleavings
-def run_interleaved(samples_bytes, out_dir: Path, a, b, c, d):
+def run_interleaved(samples_bytes, out_dir: Path, a, b, c, d, between=None):
     """the real writer runs in a thread that stops BEFORE each of its file operations; the real
     reader runs in this thread and lets the writer perform `a` operations before it starts, `b`
     between its exists() test and its open(), `c` between its open() and its read(); then `d` more
@@ -433,6 +434,8 @@ def run_interleaved(samples_bytes, out_dir: Path, a, b, c, d):
             mem.monitor_rss_process(out_dir / "monitor-rss.csv", 0.0, 0.0, 1)
         except (_Stop, _Abort):
             pass
+        except BaseException as e:            # the monitor died: recorded for the caller
+            state["error"] = f"{type(e).__name__}: {e}"[:200]
         finally:
             state["finished"] = True
             arrived.release()
@@ -469,8 +472,11 @@ def run_interleaved(samples_bytes, out_dir: Path, a, b, c, d):
             pathlib.Path.exists = real_exists
             hooks["after_open_read"] = None
         return seen["exists"], res
+    run_interleaved.last_error = None
     try:
         advance(a)
+        if between is not None:
+            between()
         ex1, r1 = reader(b, c)
         ops1 = state["ops"]
         advance(d)
@@ -482,6 +488,7 @@ def run_interleaved(samples_bytes, out_dir: Path, a, b, c, d):
             go.release()
             arrived.acquire()
         th.join(timeout=5)
+        run_interleaved.last_error = state.get("error")
         if saved[0] is None:
             del mem.open
         else:
@@ -560,7 +567,122 @@ def suite_monitor_interleave(seed, tier):
     return r
 
 
+def suite_monitor_vs_run(seed, tier):
+    """`Enabling or disabling monitoring does not change any clustering output`, and the run does not disturb
+    the monitor: the real monitor is stopped before each of its file operations, a complete multi-round run
+    is made in the SAME output directory at that instant, then the monitor continues.  The run must
+    succeed with the final files of a run without monitoring, the monitor must not die, and afterwards the
+    reader must see the last peak."""
+    import suite_mr
+    rng = random.Random(seed + 19)
+    r = Result("monitor-vs-run")
+    n_seq = 2 if tier == "quick" else 12
+    for _ in range(n_seq):
+        samples = gen_samples(rng)
+        gib = [x * (1 / 1024 ** 3) for x in samples]
+        mx, maxima = 0.0, []
+        for g in gib:
+            if g > mx:
+                mx = g
+                maxima.append(g)
+        if not maxima:
+            continue
+        case = suite_mr.gen_mr_case(rng)
+        while len(case["files"]) < 2:
+            case = suite_mr.gen_mr_case(rng)
+        case["cfg"]["cleanup"] = rng.random() < 0.5
+        T = 6 * len(maxima)
+        positions = sorted(set(range(0, min(T, 7))) | set(rng.sample(range(T + 1), min(T + 1, 4 if tier == "quick" else 12))))
+        with tempfile.TemporaryDirectory(prefix="verif_monrun_") as tmp:
+            tmp = Path(tmp)
+            (tmp / "in").mkdir()
+            paths = suite_mr.write_inputs(case, tmp / "in")
+            (tmp / "ref").mkdir()
+            try:
+                suite_mr.run_impl(case, tmp / "ref", None, paths=paths)
+            except Exception:
+                continue
+            ref = suite_mr.finals(suite_mr.read_dir(tmp / "ref", case["nf"]))
+            for a in positions:
+                out = tmp / f"o{a}"
+                out.mkdir()
+                res = {}
+
+                def between(out=out, res=res):
+                    try:
+                        suite_mr.run_impl(case, out, None, paths=paths)
+                        res["finals"] = suite_mr.finals(suite_mr.read_dir(out, case["nf"]))
+                    except Exception as e:
+                        res["error"] = f"{type(e).__name__}: {e}"[:200]
+                ops1, ops2, ex1, r1, r2 = run_interleaved(samples, out, a, 0, 0, T + 6, between=between)
+                r.cases += 1
+                info = {"samples_bytes": samples, "monitor_ops_before_the_run": a, "case": case}
+                if "error" in res:
+                    r.bad.append({"suite": "monitor-vs-run", "what": "with the monitor stopped before its file "
+                                  f"operation #{a + 1}, the clustering run in the same directory failed: {res['error']}",
+                                  **info})
+                elif res.get("finals") != ref:
+                    r.bad.append({"suite": "monitor-vs-run", "what": "monitoring changed the clustering output "
+                                  f"(monitor stopped before its file operation #{a + 1})", **info})
+                if run_interleaved.last_error:
+                    r.bad.append({"suite": "monitor-vs-run", "what": "the monitor died after a clustering run started "
+                                  f"in its directory before its file operation #{a + 1}: {run_interleaved.last_error}",
+                                  **info})
+                elif r2[0] != "val" or r2[1] != maxima[-1]:
+                    r.bad.append({"suite": "monitor-vs-run", "what": f"after the monitor finished the reader obtained "
+                                  f"{r2}, the last recorded peak is {maxima[-1]!r}", **info})
+                shutil.rmtree(out, ignore_errors=True)
+    r.nontrivial = r.cases
+    r.stats = {"sample_sequences": n_seq, "positions": r.cases}
+    r.samples = [{"what": "a complete run_multiround_bitbirch between two file operations of the monitor"}]
+    return r
+
+
+def monitor_vs_run_violation(samples, case, a):
+    """one (sample sequence, workflow case, position) of suite monitor-vs-run; text or None"""
+    import suite_mr
+    gib = [x * (1 / 1024 ** 3) for x in samples]
+    mx, maxima = 0.0, []
+    for g in gib:
+        if g > mx:
+            mx = g
+            maxima.append(g)
+    with tempfile.TemporaryDirectory(prefix="verif_monrun_") as tmp:
+        tmp = Path(tmp)
+        (tmp / "in").mkdir()
+        paths = suite_mr.write_inputs(case, tmp / "in")
+        (tmp / "ref").mkdir()
+        suite_mr.run_impl(case, tmp / "ref", None, paths=paths)
+        ref = suite_mr.finals(suite_mr.read_dir(tmp / "ref", case["nf"]))
+        out = tmp / "out"
+        out.mkdir()
+        res = {}
+
+        def between():
+            try:
+                suite_mr.run_impl(case, out, None, paths=paths)
+                res["finals"] = suite_mr.finals(suite_mr.read_dir(out, case["nf"]))
+            except Exception as e:
+                res["error"] = f"{type(e).__name__}: {e}"[:200]
+        _, _, _, r1, r2 = run_interleaved(samples, out, a, 0, 0, 6 * len(maxima) + 6, between=between)
+    if "error" in res:
+        return f"the clustering run failed: {res['error']}"
+    if res.get("finals") != ref:
+        return "monitoring changed the clustering output"
+    if run_interleaved.last_error:
+        return f"the monitor died: {run_interleaved.last_error}"
+    if r2[0] != "val" or r2[1] != maxima[-1]:
+        return f"the reader obtained {r2} at the end"
+    return None
+
+
 def search_c20(seed, tier, failures):
+    for kind, d in failures:
+        if isinstance(d, dict) and d.get("suite") == "monitor-vs-run":
+            v = monitor_vs_run_violation(d["samples_bytes"], d["case"], d["monitor_ops_before_the_run"])
+            if v:
+                return {"violation": d["what"], "samples_bytes": d["samples_bytes"], "case": d["case"],
+                        "monitor_ops_before_the_run": d["monitor_ops_before_the_run"]}
     for kind, d in failures:
         if isinstance(d, dict) and d.get("suite") in ("monitor", "monitor-interleave") \
                 and "differ from Model" not in d.get("what", "") and "differs from Model" not in d.get("what", "") \
@@ -586,6 +708,8 @@ def replay_c20(payload):
     fi = payload.get("failing_input")
     if not fi or not fi.get("samples_bytes"):
         return True
+    if "monitor_ops_before_the_run" in fi:
+        return monitor_vs_run_violation(fi["samples_bytes"], fi["case"], fi["monitor_ops_before_the_run"]) is None
     if fi.get("schedule"):
         a, b, c, d = fi["schedule"]
         with tempfile.TemporaryDirectory(prefix="verif_mon_") as tmp:
